@@ -17,7 +17,7 @@ RULE = (
     "expected text built from the reference FORWARD neighbour lists: lines in universe order (or sorted by the "
     "key), each `r(v) + ' -> ' + ', '.join(r(n))` with neighbours in neighbors() order (stable-sorted by the key "
     "when given); for a vertex without neighbours both 'x -> ' and 'x ->' are accepted; empty universe => None.  "
-    "Every case renders twice: after the first call the rendering attributes change, one member leaves and one joins, and rfunc is either switched or the very same rfunc / sort function objects are passed again; the second text must reflect the new state only.  A few worlds are scaled up: a member with 70 / 300 links and universes whose first 258 / 300 members are isolated fillers.  Before rendering, other callers have asked for every vertex's neighbours and scribbled on the lists they got.  Vertices may carry multi-line string attributes (the default rendering is repr(v): one line per member all the same); universe-vertices may contain other vertices.  Non-trivial = >= 1 member without neighbours and >= 1 member with >= 2 neighbours; distinct = distinct case value."
+    "Every case renders twice: after the first call the rendering attributes change, one member leaves and one joins, and rfunc is either switched or the very same rfunc / sort function objects are passed again; the second text must reflect the new state only.  A few worlds are scaled up: a member with 70 / 300 links and universes whose first 258 / 300 members are isolated fillers.  rfunc may be non-injective (every vertex rendered as '*') and may have a second, defaulted positional parameter.  Before rendering, other callers have asked for every vertex's neighbours and scribbled on the lists they got.  Vertices may carry multi-line string attributes (the default rendering is repr(v): one line per member all the same); universe-vertices may contain other vertices.  Non-trivial = >= 1 member without neighbours and >= 1 member with >= 2 neighbours; distinct = distinct case value."
 )
 ASSUMPTIONS = [
     "only directed/undirected-family links (basic_render uses neighbors() defaults)",
